@@ -46,6 +46,7 @@ import (
 	"github.com/influxdata/influxdb/v2/kv/migration/all"
 	"github.com/influxdata/influxdb/v2/pkg/crypt/algorithm/influxdb2"
 	"github.com/influxdata/influxdb/v2/session"
+	"github.com/influxdata/influxdb/v2/snowflake"
 	"github.com/influxdata/influxdb/v2/tenant"
 	"go.uber.org/zap"
 	"pgregory.net/rapid"
@@ -103,6 +104,7 @@ type authFix struct {
 	authSvc influxdb.AuthorizationService
 	sessSt  *session.Storage
 	sessSvc *session.Service
+	idGen   platform.IDGenerator
 	h       *ihttp.AuthenticationHandler
 	length  time.Duration
 	seen    seenAuth
@@ -114,7 +116,13 @@ func (f *authFix) openAuth(hashed bool, variant string) error {
 		return err
 	}
 	f.authSvc = authorization.NewService(st, f.ten)
-	f.sessSvc = session.NewService(f.sessSt, f.ten, f.ten, f.authSvc, session.WithSessionLength(f.length))
+	// One session service per process in production: re-creating it here (it needs the re-opened
+	// authorization service) must not also re-create its ID generator - two generators started
+	// in the same millisecond with the same random machine id hand out the same session id.
+	if f.idGen == nil {
+		f.idGen = snowflake.NewIDGenerator()
+	}
+	f.sessSvc = session.NewService(f.sessSt, f.ten, f.ten, f.authSvc, session.WithSessionLength(f.length), session.WithIDGenerator(f.idGen))
 	if f.h != nil {
 		f.h.AuthorizationService = f.authSvc
 		f.h.SessionService = f.sessSvc
@@ -152,7 +160,7 @@ func refPHC(variant, tok string) string {
 func TestPropRequestAuth(t *testing.T) {
 	const name = "TestPropRequestAuth"
 	rec.Assume("request authentication: the inner handler stands for every downstream use of the authorizer (PermissionSet() first); JWT bearer tokens are not generated (empty key store); session expiry probes closer than 150 ms to the modelled expiry interval are not asserted; RenewSessionTime is the production 5 minutes")
-	rec.Check(t, 900, 15000, func(t *rapid.T) {
+	rec.Check(t, 900, 5000, func(t *rapid.T) {
 		ctx := context.Background()
 		withWait := rapid.IntRange(0, 9999).Draw(t, "with_wait")%9 == 2 // (rapid ranges are biased towards small values: a threshold would not give the intended share)
 		renewDisabled := rapid.IntRange(0, 9).Draw(t, "renew_disabled") < 6
